@@ -210,6 +210,18 @@ CHECKS['C14']['text'] += ' Also canonicalize(keep_kekule=True), azolium cations,
 CHECKS['C16']['text'] += ' Also: the product must be the molecule its own canonical text denotes (labels on centres an edit made non-stereogenic must go).'
 CHECKS['C19']['text'] += ' Views are also evaluated in reversed and shuffled order and after a shuffled evaluation; scoped (also multi-component) searches and split are among the views.'
 CHECKS['C20']['text'] += ' RDKit-side reference: RDKit\'s own reading of the original text; explicit hydrogens / deuterium on stereocentres; round-trip configuration; cyclooctenes.'
+CHECKS['C13']['text'] += (' Ring and component views are also read inside open transactions (Edit!CanRead), the binary form is a fourth view (coordinates '
+                          'change without a flush); the design constants RestoreCacheOnAbort, FullFlushOnSpecialDelete and PackMemoised have instances TLC must refute; '
+                          'deterministic histories around transactions, coordinate bonds (also at marked stereocentres and on cumulenes) and coordinate moves.')
+CHECKS['C13']['note'] = 'trusted: TLC, Edit.tla, the rebuild() reference (add_atom/add_bond from the stored fields; for the binary form also the coordinates and the neighbour order); inside a transaction only ring / component views are read'
+CHECKS['C02']['text'] += ' The styles that drop information on purpose (!s, !b, !z) must drop exactly that (LossyVerdict). Originals with stereo elements that depend on other stereo elements are built through the API; atoms with coordinate bonds only.'
+CHECKS['C03']['text'] += ' Ring-closure bond symbols (one digit, both, contradicting, %nn) also inside reaction lines.'
+CHECKS['C04']['text'] += ' Also after implicify_hydrogens() on a grid of over-saturated hydrides and on corpus molecules given extra explicit hydrogens.'
+CHECKS['C06']['text'] += ' standardize() is one of the edits of the histories (ring bonds that become coordinate bonds: amine- and sulfide-boranes, bridging hydrides).'
+CHECKS['C07']['text'] += ' The element set of a list atom is what the listed symbols mean by the specification\'s own symbol table, not the library\'s lookup.'
+CHECKS['C09']['text'] += ' Every tabulated isotope is a query atom (thorough: all; quick: the ends of the isotope field and a sample); element lists whose letters spell other elements.'
+CHECKS['C10']['text'] += ' bytes() must be the current pack also when the binary form was asked for before numbers and coordinates changed.'
+CHECKS['C18']['text'] += ' A tabulated (element, isotope, charge) combination the constructor refuses is an observation (clause exception:construct-...).'
 PENDING = {}
 
 
